@@ -69,3 +69,29 @@ package kafka
 //@   ensures msg.Key != nil ==> result == spec.sarama_refhash(spec.hash_out(hasher, spec.hash_absorb(spec.hash_init(), msg.Key)), len(partitions))
 //@   ensures 0 <= result && result < len(partitions)
 //@   modifies region($hstate)
+
+//@ func (*LeastBytes).makeCounters
+//@   requires forall k :: 0 <= k && k < len(partitions) ==> partitions[k] == k
+//@   ensures len(counters) == len(partitions) && fresh(counters)
+//@   ensures forall i :: 0 <= i && i < len(counters) ==> 0 <= counters[i].partition && counters[i].partition < len(partitions) && counters[i].bytes == 0
+//@   loop 0 invariant 0 <= rangeindex + 1 && rangeindex + 1 <= len(partitions) && len(counters) == len(partitions) && fresh(counters)
+//@   loop 0 invariant forall j :: 0 <= j && j < len(counters) ==> counters[j].bytes == 0 && 0 <= counters[j].partition && counters[j].partition < len(partitions)
+//@   loop 0 modifies elems(counters)
+//@   loop 0 decreases len(partitions) - rangeindex
+
+//@ func (*LeastBytes).Balance
+//@   mode bv
+//@   requires len(partitions) >= 1
+//@   requires forall k :: 0 <= k && k < len(partitions) ==> partitions[k] == k
+//@   requires len(lb.counters) == len(partitions) ==> forall i :: 0 <= i && i < len(lb.counters) ==> 0 <= lb.counters[i].partition && lb.counters[i].partition < len(partitions)
+//@   ensures 0 <= result && result < len(partitions)
+//@   ensures 0 <= minIndex && minIndex < len(lb.counters) && lb.counters[minIndex].partition == result
+//@   ensures lb.counters[minIndex].bytes == minBytes + uint64(len(msg.Key)) + uint64(len(msg.Value))
+//@   ensures forall j :: 0 <= j && j < len(lb.counters) && j != minIndex ==> minBytes <= lb.counters[j].bytes
+//@   ensures len(lb.counters) == len(partitions)
+//@   modifies lb.counters, elems(lb.counters)
+//@   loop 0 invariant -1 <= rangeindex && rangeindex <= len(lb.counters) - 2 || rangeindex == -1
+//@   loop 0 invariant 0 <= minIndex && minIndex <= rangeindex + 1 && minIndex < len(lb.counters)
+//@   loop 0 invariant minBytes == lb.counters[minIndex].bytes
+//@   loop 0 invariant forall j :: 0 <= j && j <= rangeindex + 1 && j < len(lb.counters) ==> minBytes <= lb.counters[j].bytes
+//@   loop 0 decreases len(lb.counters) - rangeindex
